@@ -52,6 +52,10 @@ class Outcome:
             if reported < 20:
                 print("VIOLATION property=%s replay=%s clause=%s %s" % (self.pid, path, clause, desc))
                 reported += 1
+        # every open finding listed for this property is printed, with the number of times this run met it
+        for k in load_known():
+            if k["property"] == self.pid and k.get("status") == "open" and k["id"] not in self.known:
+                self.known[k["id"]] = (0, k["what"])
         for fid, (n, what) in self.known.items():
             print("KNOWN-FINDING: property=%s %s (%s; %d occurrence(s) in this run)" % (self.pid, what, fid, n))
         ev = {
